@@ -13,6 +13,12 @@ claimed = {
          "Source interface contract assumed; which commands call Save/SkipSave is the main loop's business (A-LOOP); 2 known findings recorded (redo of unsaved text; Save drops the restored state)"),
  "C16": ("DESIGN.md §4 C16", "kill commands proved against killyank: the line lost exactly d runes starting at the cursor, they are the newest kill, the rest is untouched (P1) and the cursor sits where the range collapsed (P2); yank / vi-put-before insert exactly the kill buffer at the cursor; lemma kill_yank_restores closes the loop; Line.Cut/Insert, Selection.Pos/Text/Cut, Buffers.Write/Active carry it",
          "emacs kills under the hypothesis 'no vi visual selection'; counts other than 1 not covered for vi-delete-char/put (NUL padding observed); word kills (kill-word etc.) only for panic-freedom; Line.Len == len trusted"),
+ "C14": ("DESIGN.md §4 C14", "insertCandidate / acceptCandidate / cancelCompletedLine / Cancel proved against 'only the word being completed is rewritten': completed (or real) line == line[:p-|prefix|] ++ value ++ line[p:], the real line untouched while a candidate is only virtually inserted, interrupt restores line and cursor",
+         "hypotheses stated as preconditions: FilterPrefix has run (H-FILTER), cursor in range; candidate generation/filter/sort not covered; 2 known findings (byte vs rune prefix length)"),
+ "C15": ("DESIGN.md §4 C15", "plain (non-aliased) grids: createRow/createGrid/initCompletionsGrid establish the grid invariant and flatten(rows) == candidate list for every terminal width (real ceiling, nonlinear row arithmetic); moveSelector(+-1,0) is the immediate successor / predecessor in list order and reports done exactly at the last / first cell; firstCell/lastCell",
+         "aliased grids (shared descriptions), findFirstCandidate and the group-cycling recursion are not under contract (stated, not bounded-checked); float64 treated as mathematical real in math.Ceil"),
+ "C17": ("DESIGN.md §4 C17", "vi-delete-to and vi-yank-to stated against one pair of spec functions opB/opE (= Selection.Pos() after adjustSelectionPending): delete removes line[b:e] and stores it, yank stores the same line[b:e] and leaves the buffer unchanged; dd/yy likewise against lineB/lineE with the same newline rule",
+         "viCommandMode and Display.ResetHelpers trusted (completion/hint code); only the operator bodies are proved, the pending-operator hand-off in the main loop is A-LOOP; index safety of the other branches assumed (assume_nopanic)"),
 }
 not_applicable = {
  "C04": "needs a VT100 cell-grid interpreter of the emitted byte stream as oracle; contracts on the repository's functions cannot state what a terminal shows (DESIGN.md §4 C04)",
@@ -27,9 +33,6 @@ pending = {
  "C09": "not yet claimed: history navigation contracts not yet written",
  "C10": "not yet claimed: assumed-library layer not reached yet (DESIGN.md §4 C10)",
  "C11": "not yet claimed: ghost termios / defers on the panic edge not yet built",
- "C14": "not yet claimed: completion insert contracts not yet written",
- "C15": "not yet claimed: completion grid contracts not yet written",
- "C17": "not yet claimed: vi operator contracts not yet written",
  "C18": "not yet claimed: macro engine contracts not yet written",
  "C19": "not yet claimed: escape/unescape lemmas not yet written",
 }
